@@ -619,6 +619,10 @@ class Wit:
         if k == "Verbatim":
             self.bad = "verbatim literal"
             return "7"
+        if k == "Bool" and self.model:
+            mdl = self.model()
+            if mdl is not None:
+                return "true" if z3.is_true(mdl.eval(z3.Bool(lb + ".Bool.0.value"), model_completion=True)) else "false"
         return LIT_TEXT[k]
 
     def array(self, ab):
